@@ -171,6 +171,13 @@ def check(ctx):
     # Round 7: a described field left automatic is recomputed by every pack (its before-pack hook
     # writes the hidden field and nothing else): a hook that also marks the field as forced freezes
     # the first computed value, so the bytes of a later pack no longer parse to the packet (C17-a)
+    # Round 8: the generated blocks take values out of the input through struct only (C05): a byte
+    # indexed out of raw is an unsigned number whatever the field declares
+    from .c05 import check_generated_codecs
+    try:
+        check_generated_codecs(ctx)
+    except Undecided as e:
+        ctx.undecided('R1-generated-int-codec', ('bisturi/codegen.py', 'CodeGenerator'), 'generated codecs', str(e), 0)
     from .c17 import check_auto
     try:
         check_auto(ctx)
